@@ -28,7 +28,12 @@ ConfFor(P, drv) ==
 \*      re-pointed (a TODO in DuplicateKernel._rename_calls), the clone calls a name it does not import
 \*  (c) dep on a module that is not renamed (it holds a driver) and has a routine outside the graph: the module-level
 \*      import is re-pointed to the suffixed names, the unprocessed routine keeps calling the old one
+\*  (d) wrap while a module holds a routine outside the graph that calls a wrapped routine (e.g. after rm took its
+\*      caller out of the graph): processed callers import the new module, the unprocessed routine of the same
+\*      (written) file keeps the external call
 Pre(o) ==
+  /\ o.op = "wrap" => \A m \in ({n.scope : n \in ProcNodes(G)} \cup {n.local : n \in {x \in G.nodes : x.kind = "mod"}}) \ {""} :
+                          \A pr \in Procs(S.P) : pr.mod = m => ItemOfProc(pr) \in G.nodes
   /\ o.op = "dep" => \A m \in {n.scope : n \in ProcNodes(G)} \ {""} :
                          (\E n \in ProcNodes(G) : n.scope = m /\ RoleOf(S, n) # "kernel")
                             => \A pr \in Procs(S.P) : pr.mod = m => ItemOfProc(pr) \in G.nodes
